@@ -6,6 +6,7 @@ wrong / huge size hints; every sign byte -128..127 plus out-of-i8 integers; inco
 (sign, magnitude) pairs (sign 0 with digits, sign +-1 with zero digits).
 """
 from genlib import *
+M32 = (1 << 32) - 1
 
 W = 1 << 32
 HUGE = (1 << 64) - 1
@@ -72,4 +73,17 @@ def gen(rng, tier):
     for sb in list(range(-130, 131)) + [255, 256, 257, 65535, -65536, (1 << 63) - 1, -(1 << 63)]:
         for ws in ([], [0], [0, 0], [5], [0, 5, 0], [rng.randrange(W) for _ in range(rng.randrange(1, 6))]):
             reqs.append("C17 i.de %d %s" % (sb, wwords(ws)))
+    # deserialize_in_place (serde's provided method) over targets that already hold a value: empty / short / long
+    # sequences into zero, short and long targets, with and without size hints
+    olds = [0, 1, B - 1, B, big(rng, 2), big(rng, 3), big(rng, 7)]
+    seqs = [[], [0], [0, 0, 0], [1], [0, 1], [1, 0, 0], [5, 6, 7], [0, 0, 1], [M32] * 3, [rng.randrange(1 << 32) for _ in range(9)],
+            [rng.randrange(1 << 32) for _ in range(16)]]
+    for old in olds:
+        for ws in seqs:
+            for hint in (None, "none", str(len(ws)), "0", str(len(ws) + 3)):
+                h = "" if hint is None else " " + hint
+                reqs.append("C17 u.de_in_place %s %s%s" % (wu(old), wwords(ws), h))
+                if rng.randrange(3) == 0:
+                    sv = rng.choice([-1, 0, 1, 1, -1, 2, 255])
+                    reqs.append("C17 i.de_in_place %s %d %s%s" % (wi(signed(rng, old)), sv, wwords(ws), h))
     return reqs
